@@ -13,7 +13,15 @@ import (
 	"golang.org/x/tools/go/ssa/ssautil"
 )
 
-const repoRoot = "/repo"
+// repoRoot is /repo; GOSYM_REPO points the loader at another checkout of the same module (used
+// only by tools/seed_batch.sh to try seeded changes in a scratch worktree, never by the
+// registered commands).
+var repoRoot = func() string {
+	if r := os.Getenv("GOSYM_REPO"); r != "" {
+		return r
+	}
+	return "/repo"
+}()
 
 var verifRoot = "/verif"
 
